@@ -282,6 +282,15 @@ static void on_alt(void)
         for (int i = 0; i < a->ad; i++) binson_parser_leave_array(p);
         binson_parser_next(p);
         for (int i = 0; i < a->od; i++) binson_parser_leave_object(p);
+        /* calls that do not match the innermost open container, issued at the deepest point: leave_object inside the arrays,
+         * leave_array inside the objects, enters on a scalar (whatever they answer, they must answer iteratively) */
+        binson_parser_reset(p); binson_parser_go_into_object(p);
+        for (int i = 1; i < a->od; i++) { binson_parser_next(p); binson_parser_go_into_object(p); }
+        binson_parser_leave_array(p);
+        binson_parser_next(p);
+        for (int i = 0; i < a->ad; i++) { binson_parser_go_into_array(p); binson_parser_next(p); }
+        binson_parser_go_into_object(p); binson_parser_go_into_array(p);
+        for (int i = 0; i < a->od; i++) binson_parser_leave_object(p);
         binson_parser_reset(p); binson_parser_go_into_object(p); binson_parser_next(p); binson_parser_get_raw(p, &raw);
         binson_parser_reset(p); binson_parser_go_into_object(p); binson_parser_next(p);
         binson_writer_init(&w, swb, sizeof swb); binson_parser_to_writer(p, &w);
